@@ -124,6 +124,17 @@ def finding_probes():
             F.utils.generate_one(schema3)
         except RecursionError:
             fails += 1
+    # regression probe for a repaired defect (not listed as known: if it comes back it is a violation)
+    nul = {"type": "record", "name": "R0", "fields": [{"name": "f0", "type": [
+        "long", {"type": "record", "name": "R1", "fields": [{"name": "f0", "type": "null"}, {"name": "f1", "type": {"type": "null"}}]},
+        {"type": "record", "name": "R2", "fields": []}]}]}
+    rep = False
+    try:
+        F.schemaless_writer(io.BytesIO(), nul, {"f0": {}})
+    except Exception:  # noqa
+        rep = True
+    out.append(("writers:absent-field-of-dict-form-null-type-rejected", rep,
+                "an empty dict under [long, R1{f0: null, f1: {'type': 'null'}}, R2{}] must be writable"))
     amb = {"type": "record", "name": "R0", "fields": [{"name": "f0", "type": [
         {"type": "record", "name": "R2", "fields": [{"name": "f0", "type": {"type": "long", "logicalType": "timestamp-millis"}}]},
         {"type": "map", "values": {"type": "long", "logicalType": "time-micros"}}]}]}
